@@ -104,7 +104,7 @@ Definition chunk_at (p : list byte) (cs chunks i : Z) : Res (list byte) :=
   else Panic 2.                             (* gecko.go writeFragmented: slice bounds out of range *)
 
 (* the for loop of writeFragmented: frames handed to inner.WriteTo, in order
-   (inner write errors are not modelled: the inner conn is assumed to accept the datagrams) *)
+   when the inner conn accepts every datagram (inner write errors: frag_loop_f / write_to_f below) *)
 Fixpoint frag_loop (c : cfg) (p : list byte) (cs chunks : Z) (mid : N) (o : oracle)
          (i : nat) (todo : nat) : Res (list (list byte)) :=
   match todo with
@@ -139,6 +139,78 @@ Definition write_to (c : cfg) (ctr : N) (p : list byte) (o : oracle)
       if negb (N.land (b2n b0) 128 =? 0)%N then write_fragmented c ctr p o
       else Ok ([p], ctr, zlen p)
   end.
+
+(* ---- the same send path with INNER WRITE ERRORS as an input of the environment.
+   fail = Some k: the k-th call (0-based) of inner.WriteTo made by this WriteTo returns an error
+   (the datagram does not reach the wire); None: the inner conn accepts everything.
+   writeFragmented's error path is `return 0, err`: the frames handed down before stay on the wire,
+   the remaining chunks are never built (no further random draws), and g.msgID is NOT touched again,
+   i.e. the message id taken by Add(1) stays consumed. *)
+Inductive wres := WDone (n : Z) | WFail.          (* (n, nil) | (0, err) *)
+
+Record wout := mkW {
+  w_wire : list (list byte);          (* datagrams the inner conn accepted, in order *)
+  w_refused : option (list byte);     (* the datagram whose inner.WriteTo returned the error *)
+  w_ctr : N;                          (* g.msgID after the call *)
+  w_res : wres }.
+
+Definition fails_at (fail : option nat) (i : nat) : bool :=
+  match fail with Some k => Nat.eqb k i | None => false end.
+
+Fixpoint frag_loop_f (c : cfg) (p : list byte) (cs chunks : Z) (mid : N) (o : oracle)
+         (fail : option nat) (i : nat) (todo : nat) : Res (list (list byte) * option (list byte)) :=
+  match todo with
+  | O => Ok ([], None)
+  | S t =>
+      chunk <- chunk_at p cs chunks (Z.of_nat i) ;;
+      pl <- pad_len c (zlen chunk) (o_pad o i) ;;
+      let h := mkHdr pl mid (N.of_nat i mod 256) (Z.to_N chunks mod 256) in
+      f <- encode_frame h chunk (geckoHeaderSize + Z.of_N pl + zlen chunk) (o_bytes o i) ;;
+      if fails_at fail i then Ok ([], Some f)        (* inner.WriteTo(buf[:n]) erred: return 0, err *)
+      else
+        r <- frag_loop_f c p cs chunks mid o fail (S i) t ;;
+        Ok (f :: fst r, snd r)
+  end.
+
+Definition write_fragmented_f (c : cfg) (ctr : N) (p : list byte) (o : oracle) (fail : option nat)
+  : Res wout :=
+  chunks <- random_fragment_chunks (o_chunks o) ;;
+  if chunks =? 0 then Panic 3
+  else
+    let cs := zlen p / chunks in
+    let ctr' := ((ctr + 1) mod 2 ^ 32)%N in
+    let mid := (ctr' mod 256)%N in
+    r <- frag_loop_f c p cs chunks mid o fail 0 (Z.to_nat chunks) ;;
+    Ok (mkW (fst r) (snd r) ctr' (match snd r with None => WDone (zlen p) | Some _ => WFail end)).
+
+(* WriteTo; the short-header branch returns the inner conn's own result *)
+Definition write_to_f (c : cfg) (ctr : N) (p : list byte) (o : oracle) (fail : option nat) : Res wout :=
+  match p with
+  | [] => Ok (mkW [] None ctr (WDone 0))
+  | b0 :: _ =>
+      if negb (N.land (b2n b0) 128 =? 0)%N then write_fragmented_f c ctr p o fail
+      else if fails_at fail 0 then Ok (mkW [] (Some p) ctr WFail)
+      else Ok (mkW [p] None ctr (WDone (zlen p)))
+  end.
+
+(* a sequence of WriteTo calls on one conn: packet, random draws, inner fault of each call *)
+Record wreq := mkWR { wr_p : list byte; wr_o : oracle; wr_fail : option nat }.
+
+Fixpoint send_run (c : cfg) (ctr : N) (ws : list wreq) : Res (list wout) :=
+  match ws with
+  | [] => Ok []
+  | w :: t =>
+      r <- write_to_f c ctr (wr_p w) (wr_o w) (wr_fail w) ;;
+      rest <- send_run c (w_ctr r) t ;;
+      Ok (r :: rest)
+  end.
+
+Definition is_long (p : list byte) : bool :=
+  match p with b0 :: _ => negb (N.land (b2n b0) 128 =? 0)%N | [] => false end.
+
+(* number of long-header packets among the requests *)
+Definition count_long (ws : list wreq) : N :=
+  N.of_nat (length (filter (fun w => is_long (wr_p w)) ws)).
 
 (* specification-level view of the split: the chunk payloads of p cut in n pieces *)
 Definition split_spec (p : list byte) (n : nat) : list (list byte) :=
